@@ -45,6 +45,14 @@ fn ser_all<T: serde::Serialize>(v: &T) {
     let _ = sonic_rs::to_writer(&mut w, v);
 }
 
+fn ps_mut(k: usize) -> Vec<PointerNode> {
+    match k {
+        0 => vec![PointerNode::Key(FastStr::new("a")), PointerNode::Key(FastStr::new("k"))],
+        1 => vec![PointerNode::Index(0), PointerNode::Key(FastStr::new("k"))],
+        _ => vec![PointerNode::Key(FastStr::new("a")), PointerNode::Index(1)],
+    }
+}
+
 fn paths() -> Vec<Vec<PointerNode>> {
     vec![
         vec![],
@@ -86,6 +94,41 @@ pub fn battery(input: &[u8], full: bool, out: &mut Findings) -> u64 {
         };
     }
     // DOM
+    run("from_slice<Value> + mutable lookups of every kind", &mut || {
+        use sonic_rs::{JsonContainerTrait, JsonValueMutTrait, JsonValueTrait};
+        if let Ok(mut v) = sonic_rs::from_slice::<Value>(input) {
+            let _ = v.get_mut("a").map(|x| x.is_null());
+            let _ = v.get_mut(0usize).map(|x| x.is_null());
+            let _ = v.pointer_mut(ps_mut(0).iter()).map(|x| x.is_null());
+            let _ = v.pointer_mut(ps_mut(1).iter()).map(|x| x.is_null());
+            let _ = v.pointer_mut(ps_mut(2).iter()).map(|x| x.is_null());
+            let _ = v.as_array_mut().map(|a| a.len());
+            let _ = v.as_object_mut().map(|o| o.len());
+            // the same on every child (strings, numbers, literals)
+            let n = v.as_array().map(|a| a.len()).unwrap_or(0).min(4);
+            for i in 0..n {
+                if let Some(c) = v.get_mut(i) {
+                    let _ = c.get_mut("a").map(|x| x.is_null());
+                    let _ = c.get_mut(0usize).map(|x| x.is_null());
+                    let _ = c.pointer_mut(ps_mut(0).iter()).map(|x| x.is_null());
+                }
+            }
+            ser_all(&v);
+        }
+        if let Ok(mut o) = sonic_rs::from_slice::<OwnedLazyValue>(input) {
+            // read first (fills the cache), then mutate the same node
+            let _ = o.get("a").map(|x| x.is_null());
+            let _ = o.get(0usize).map(|x| x.is_null());
+            let _ = o.as_array().map(|a| a.len());
+            let _ = o.get_mut("a").map(|x| x.is_null());
+            let _ = o.get_mut(0usize).map(|x| x.is_null());
+            let _ = o.pointer_mut(ps_mut(0).iter()).map(|x| x.is_null());
+            let _ = o.pointer_mut(ps_mut(2).iter()).map(|x| x.is_null());
+            let _ = o.as_array_mut().map(|a| a.len());
+            let _ = o.as_object_mut().map(|a| a.len());
+            ser_all(&o);
+        }
+    });
     run("from_slice<Value>", &mut || match sonic_rs::from_slice::<Value>(input) {
         Ok(v) => {
             ser_all(&v);
